@@ -19,7 +19,9 @@ import (
 	"encoding/xml"
 	"errors"
 	"fmt"
+	"os"
 	"runtime/debug"
+	"strconv"
 	"strings"
 	"time"
 
@@ -469,6 +471,15 @@ func interpOnce(table sx.V, s string) sx.V {
 	return sx.L(sx.B(string(p.Packaging)), sx.Bool(len(p.Dependencies) == 1))
 }
 
+// interpLimit is the wall-clock limit of one interpolation (VERIF_INTERP_TIMEOUT seconds, default 20).
+// The driver repeats a "hang" alone with ten times the limit before it reports it.
+func interpLimit() time.Duration {
+	if v, err := strconv.Atoi(os.Getenv("VERIF_INTERP_TIMEOUT")); err == nil && v > 0 {
+		return time.Duration(v) * time.Second
+	}
+	return 20 * time.Second
+}
+
 func interpHandler(arg sx.V) sx.V {
 	table, s := arg.Nth(0), arg.Nth(1).Str()
 	done := make(chan sx.V, 1)
@@ -483,7 +494,7 @@ func interpHandler(arg sx.V) sx.V {
 	select {
 	case v := <-done:
 		return v
-	case <-time.After(20 * time.Second):
+	case <-time.After(interpLimit()):
 		return sx.L(sx.Sym("hang"))
 	}
 }
